@@ -34,7 +34,7 @@ def cases(tier, seed):
 
 def gate(agg):
     c = agg["cnt"]
-    need = ["pairs_compared", "evaluator_selfchecks"] + [f"t:{t}" for t in TRANSFORMS] + ["sanitize_clashes", "attractor_sets_compared"]
+    need = ["pairs_compared", "evaluator_selfchecks", "heuristic_diagrams_compared"] + [f"t:{t}" for t in TRANSFORMS] + ["sanitize_clashes", "attractor_sets_compared"]
     return [f"monitor counter {k} is zero" for k in need if c.get(k, 0) == 0]
 
 
@@ -203,6 +203,7 @@ def run_case(case):
         a0 = W(lambda: sd0.expanded_attractor_sets(), nodes=len(sd0))
         att0 = sorted(tuple(sorted(bb.vset_states(ref, vs)[0])) for sets in a0.values() for vs in sets)
         cx = any(len(a) > 1 for a in att0)
+        alt0 = {}
         for t in case["transforms"]:
             ctx = {"rules": rules, "transform": t, "rs": case["rs"]}
             if t == "sanitize":
@@ -249,6 +250,19 @@ def run_case(case):
             if not flip and t != "rename":
                 if not (sd0.is_isomorphic(sd1) and sd1.is_isomorphic(sd0)):
                     res.v(f"not-isomorphic:{t}", "is_isomorphic is False", ctx=ctx)
+            if not flip and t not in ("rename", "reorder"):
+                # names and variable order unchanged: the heuristic strategies (block, SCC) must make the same
+                # choices too (they detect sources and blocks semantically)
+                for strat in ("block", "scc"):
+                    if strat not in alt0:
+                        a_sd = bb.make_sd(net)
+                        W(lambda: a_sd.expand_block() if strat == "block" else a_sd.expand_scc())
+                        alt0[strat] = by_space_dump(a_sd, ref, bb)
+                    b_sd = bb.make_sd(new, fmt=fmt)
+                    W(lambda: b_sd.expand_block() if strat == "block" else b_sd.expand_scc())
+                    res.c("heuristic_diagrams_compared")
+                    if _mapped_dump(b_sd, rnew, back, flip, ref, bb) != alt0[strat]:
+                        res.v(f"{strat}-diagram-differs:{t}", f"expand_{strat}() builds a different diagram for the rewritten network", ctx=ctx)
             m1 = sorted(_mapped_dump_space(sd1.node_data(i)["space"], back, flip, ref, bb) for i in sd1.minimal_trap_spaces())
             m0 = sorted(bb.kspace(ref, sd0.node_data(i)["space"]) for i in sd0.minimal_trap_spaces())
             if m1 != m0:
@@ -296,7 +310,7 @@ def _sanitize(net, ref, rng, res, bb, oracles, d0, att0, W, ctx):
 
     bn = BooleanNetwork.from_bnet(bb.bnet_of(net))
     order = [bn.get_variable_name(v) for v in bn.variables()]
-    base = rng.choice(["c", "x_", "G"])
+    base = rng.choice(["c", "x_", "G", "Gene", "node_1", "Abc_d"])
     weird_pool = [base + "[", base + "]", base + "_", "_" + base + "_", base + "{1}", base + "{2}", "__" + base + "_", base + ".", base + "-a", base + "+", base + " ", base + "é"]
     rng.shuffle(weird_pool)
     k = rng.randint(1, min(len(order), 5))
